@@ -10,6 +10,7 @@
      idx     Program.line_numbers as [[number, offset], ...] ascending
      rescan  the same from a fresh rebuild_line_dict on a copy of the buffer; relinks = links it wrote
      goto    [[n, landed], ...]  direct-mode GOTO n with TRON: first line executed
+     fault   "" or what broke while projecting (PEEK raising, rescan raising)
    Optional `model` (behaviour replay): the memory layout predicted by the
    implementation-shaped layer for this transition.
    The reference layer alone decides: the listing must equal Listing(ref) of
@@ -47,6 +48,7 @@ Step(e) ==
         v == IF e.kind = "internal" THEN "internal_error"
              ELSE IF Must(s0, e) = "ok" /\ ~e.ok THEN "edit_refused"
              ELSE IF ~good THEN "listing_differs_from_reference"
+             ELSE IF o.fault # "" THEN "projection_failed_on_corrupt_program_memory"
              ELSE IF ~o.term THEN "no_terminator_at_end_of_link_chain"
              ELSE IF ~ChainLinked(o) THEN "link_chain_broken"
              ELSE IF Col(o.chain, 3) # Col(exp, 1) THEN "link_chain_lines_differ_from_reference"
